@@ -50,8 +50,9 @@ Definition pool_bound (s : st) : Prop :=
 
 Lemma eval_cb_mono s c : forall n, (n <= snd (eval_cb s c n))%N.
 Proof.
-  induction c as [e|e|id f|m t|c IH|f c IH stk|f c1 IH1 stk c2 IH2]; intros n; cbn [eval_cb].
+  induction c as [e|e|e|id f|m t|c IH|f c IH stk|f c1 IH1 stk c2 IH2]; intros n; cbn [eval_cb].
   - cbn. lia.
+  - destruct (get_err s (Some e)); cbn; lia.
   - destruct (get_err s (Some e)); cbn; lia.
   - cbn. lia.
   - cbn. lia.
@@ -91,21 +92,20 @@ Qed.
 (* ---------- pool_bound holds in every reachable state ---------- *)
 Definition res_bound (n : N) (r : cbres) : Prop :=
   match r with
-  | Normal (Some e) | Panicking (PVErr e) => is_defn_val e = false -> (addr_of e < n)%N
+  | Normal (Some e) => is_defn_val e = false -> (addr_of e < n)%N     (* what can reach the pool *)
   | _ => True
   end.
 
 Lemma eval_cb_bound s : pool_bound s -> forall c n, (s_next s <= n)%N ->
   res_bound (snd (eval_cb s c n)) (fst (eval_cb s c n)).
 Proof.
-  intros Hb. induction c as [e|e|id f|m t|c IH|f c IH stk|f c1 IH1 stk c2 IH2]; intros n Hn; cbn [eval_cb].
+  intros Hb. induction c as [e|e|e|id f|m t|c IH|f c IH stk|f c1 IH1 stk c2 IH2]; intros n Hn; cbn [eval_cb].
   - cbn. destruct (get_err s e) as [x|] eqn:G; [|exact I]. intros D.
     specialize (Hb x (get_err_in s e x G) D). lia.
-  - destruct (get_err s (Some e)) as [x|] eqn:G; cbn.
-    + intros D. specialize (Hb x (get_err_in s (Some e) x G) D). lia.
-    + intros _. lia.
+  - destruct (get_err s (Some e)) as [x|] eqn:G; cbn; exact I.
+  - destruct (get_err s (Some e)) as [x|] eqn:G; cbn; exact I.
   - exact I.
-  - cbn. intros _. lia.
+  - cbn. exact I.
   - now apply IH.
   - specialize (IH n Hn). destruct (eval_cb s c n) as [[r|v] n']; cbn in *; [exact IH|].
     intros _. destruct v; cbn; lia.
